@@ -1,7 +1,8 @@
 """C06: schema verdict is the order-independent conjunction of its rules' verdicts."""
 import itertools
 
-from ..passes import run_passes
+from .. import coqenc as E
+from ..passes import Case, run_passes
 from ..runner import jval
 from ..valgen import Gen, copy_value
 from ..condgen import CondGen
@@ -13,14 +14,34 @@ from . import schema_common as sc
 
 PROP = "C06"
 IMPORTS = sc.IMPORTS
-THEOREMS = ['C06_model_is_spec', 'C06_conj', 'C06_sorted', 'C06_perm']
+THEOREMS = ['C06_model_is_spec', 'C06_conj', 'C06_sorted', 'C06_perm', 'C06_report_names_every_failing_path', 'C06_report_when_valid',
+            'C06_report_when_invalid', 'C06_report_blocks', 'C06_report_gives_every_reason']
 FACT_LEMMAS = ['Tie.tie_build', 'Tie.tie_call', 'C01Proof.caught_call_ok']
-DEPENDS = ['Py.v', 'Lang.v', 'Defs.v', 'Cond.v', 'Dsl.v', 'Check.v', 'DocSem.v', 'Inst.v', 'Gen/TablesGen.v', 'Gen/CallablesGen.v', 'Proofs/Tie.v', 'Proofs/PyFacts.v', 'Proofs/C01Proof.v', 'Proofs/C02Proof.v', 'Path.v', 'PathSpec.v', 'Run.v', 'Proofs/C03Proof.v', 'Proofs/C04Proof.v', 'Cast.v', 'RuleDefs.v', 'RuleSpec.v', 'RuleTerms.v', 'Rule.v', 'RunRule.v', 'Proofs/RuleProof.v', 'Proofs/SchemaSpecProof.v', 'Properties/C06.v']
+DEPENDS = ['Py.v', 'Lang.v', 'Defs.v', 'Cond.v', 'Dsl.v', 'Check.v', 'DocSem.v', 'Inst.v', 'Gen/TablesGen.v', 'Gen/CallablesGen.v', 'Proofs/Tie.v', 'Proofs/PyFacts.v', 'Proofs/C01Proof.v', 'Proofs/C02Proof.v', 'Path.v', 'PathSpec.v', 'Run.v', 'Proofs/C03Proof.v', 'Proofs/C04Proof.v', 'Cast.v', 'RuleDefs.v', 'RuleSpec.v', 'RuleTerms.v', 'Rule.v', 'RunRule.v', 'Proofs/RuleProof.v', 'Proofs/SchemaSpecProof.v', 'Report.v', 'RunReport.v', 'Proofs/ReportProof.v', 'Properties/C06.v']
 ASSUMPTIONS = ["Layer P models CPython's operators (pysem)",
                "the report text depends on repr(); only 'is a str' and 'names every failing path' are checked, by the harness"]
 
 
-def direct_checks(rts, perms, doc):
+def report_case(vd, rep, descr):
+    """Correspondence for the report text: the model (Report.v) assembles ValidatedData.get_failures_string() and every
+    RuleTest.get_failures_string() from is_valid / tested and, per failure, repr(path), repr(value) and the reason lines."""
+    try:
+        rows = []
+        for t in vd.rule_tests:
+            fs = "[" + "; ".join("(" + E.enc_str(repr(f.path)) + ", " + E.enc_str(repr(f.value)) + ", [" +
+                                 "; ".join(E.enc_str(x) for x in f.reasons) + "])" for f in t.failures) + "]"
+            rows.append(f"({E.enc_bool(bool(t.is_valid))}, {E.enc_bool(bool(t.tested))}, {fs})")
+        model = "(run_report [" + "; ".join(rows) + "])"
+        out = ("ok", (rep, [t.get_failures_string() for t in vd.rule_tests]))
+        if len(model) > 6000:
+            return None
+        return Case(dict(descr, kind="report", impl=repr(rep)[:300], coq=model[:6000]), model, None, E.enc_res(out), out,
+                    not vd.is_valid, key=("report", model[:400]))
+    except (E.Unencodable, Exception):
+        return None
+
+
+def direct_checks(rts, perms, doc, rcases=None):
     """Model-free oracle: aggregates and the set of (rule, failing path) pairs are the same in every
     permutation; Schema.rules is the stable sort by path length; the report is a str naming every path."""
     out = []
@@ -86,6 +107,10 @@ def direct_checks(rts, perms, doc):
             out.append({"kind": "direct", "what": f"get_failures_string() returned {type(rep).__name__}", "perm": list(perm),
                         "schema": [r.descr()[:200] for r in order], "doc": jval(doc)})
         else:
+            if rcases is not None and perm == perms[0]:
+                rc = report_case(vd, rep, {"schema": [r.descr()[:200] for r in order], "doc": jval(doc)})
+                if rc:
+                    rcases.append(rc)
             for t in vd.rule_tests:
                 for f in t.failures:
                     if repr(f.path) not in rep:
@@ -124,6 +149,7 @@ def run(tier, seed, model_ok, spec_ok, replay=None):
     rg = RuleGen(CondGen(g))
     n = 120 if tier == "quick" else 3000
     cases, direct, nperm = [], [], 0
+    rcases = []
     for doc, paths in TYPED_PREFIX:
         rts = [RuleT(PathT([Prim(x) for x in p]), Leaf("Value", "is_instance", [str]), []) for p in paths]
         perms = list(itertools.permutations(range(len(rts))))
@@ -131,7 +157,7 @@ def run(tier, seed, model_ok, spec_ok, replay=None):
             c = sc.make_case([rts[i] for i in perm], copy_value(doc))
             if c:
                 cases.append(c)
-        direct.extend(direct_checks(rts, perms, doc))
+        direct.extend(direct_checks(rts, perms, doc, rcases))
         nperm += len(perms)
     # rules whose concrete paths are equal as tuples / hash-equal but of different types must not share anything
     for doc, paths in HASH_EQUAL:
@@ -141,7 +167,7 @@ def run(tier, seed, model_ok, spec_ok, replay=None):
             c = sc.make_case([rts[i] for i in perm], copy_value(doc))
             if c:
                 cases.append(c)
-        direct.extend(direct_checks(rts, perms, doc))
+        direct.extend(direct_checks(rts, perms, doc, rcases))
         nperm += len(perms)
     # rules that compare == yet judge differently (range bounds 0 / 0.0: known finding D22 of C14) are still two rules: each is judged on its own
     for doc, bounds in (({"a": [1, 2, 9], "b": 3}, [(0, 5), (0.0, 5)]), ({"a": [1, 2, 9]}, [(0.0, 5), (0, 5), (0, 5.0)])):
@@ -151,7 +177,7 @@ def run(tier, seed, model_ok, spec_ok, replay=None):
             c = sc.make_case([rts[i] for i in perm], copy_value(doc))
             if c:
                 cases.append(c)
-        direct.extend(direct_checks(rts, perms, doc))
+        direct.extend(direct_checks(rts, perms, doc, rcases))
         nperm += len(perms)
     for _ in range(n):
         doc = g.document(4, 4)
@@ -169,12 +195,22 @@ def run(tier, seed, model_ok, spec_ok, replay=None):
             c = sc.make_case([rts[i] for i in perm], doc)
             if c:
                 cases.append(c)
-        direct.extend(direct_checks(rts, perms, doc))
+        direct.extend(direct_checks(rts, perms, doc, rcases))
         nperm += len(perms)
     k_bad, o_bad, nk, no, err = run_passes("c06", IMPORTS, cases, model_ok, spec_ok)
-    return sc.summarise(cases, k_bad, o_bad, nk, no, err,
-                        "cast-free schemas of 0..6 (thorough: ..12) document-guided rules, each in all n! (n<=4) or 5 random "
-                        "permutations; non-trivial = at least one failure; distinct by (rules, document)", direct, nperm)
+    res = sc.summarise(cases, k_bad, o_bad, nk, no, err,
+                       "cast-free schemas of 0..6 (thorough: ..12) document-guided rules, each in all n! (n<=4) or 5 random "
+                       "permutations; non-trivial = at least one failure; distinct by (rules, document); plus the text of "
+                       "get_failures_string() (schema and every rule test) against the model's assembly (Report.v)", direct, nperm)
+    rk_bad, _, rnk, _, rerr = run_passes("c06r", "Py Check Report RunReport", rcases, model_ok, False)
+    res["k_cases"] += rnk
+    res["evaluations"] += len(rcases)
+    res["k_mismatch"] += [rcases[i].descr for i in rk_bad]
+    res["distribution"]["reports"] = len(rcases)
+    res["distribution"]["reports-of-invalid-data"] = sum(1 for c in rcases if c.nontrivial)
+    if rerr and not res["k_mismatch"]:
+        res["k_mismatch"] = [{"coq-eval-error": rerr}]
+    return res
 
 
 def matches_known(known, case):
